@@ -682,6 +682,8 @@ class Ref:
             mult = o.get("DepthMultiplier", 1)
         else:
             oc, kh, kw, ic = w.shape
+            if ic != C and (ic <= 0 or C % ic or oc % (C // ic)):
+                raise Unsupported("filter depth does not divide the input depth")
         oh, ow = self.tens(out_idx)["shape"][1:3]
         ekh, ekw = (kh - 1) * dh + 1, (kw - 1) * dw + 1
         if o.get("Padding", 0) == 0:   # SAME
@@ -706,8 +708,12 @@ class Ref:
                         if depthwise:
                             v = np.repeat(xz[0, iy, ix, :], mult) if mult > 1 else xz[0, iy, ix, :]
                             acc[0, oy, ox, :] += v * wz[0, ky, kx, :]
-                        else:
+                        elif ic == C:
                             acc[0, oy, ox, :] += wz[:, ky, kx, :] @ xz[0, iy, ix, :]
+                        else:      # grouped convolution: filter j reads the channels of group j // (oc / groups)
+                            ocg = oc // (C // ic)
+                            for g_ in range(C // ic):
+                                acc[0, oy, ox, g_ * ocg:(g_ + 1) * ocg] += wz[g_ * ocg:(g_ + 1) * ocg, ky, kx, :] @ xz[0, iy, ix, g_ * ic:(g_ + 1) * ic]
         if bias is not None:
             acc += bias.reshape([1, 1, 1, -1])
         return self._requant(acc, ins[0], ins[1], out_idx, o.get("FusedActivationFunction", 0), oc)
